@@ -135,9 +135,17 @@ Fixpoint lstrip (s : string) : string :=
   | EmptyString => EmptyString
   end.
 
+(* `data == 'nan' or data.startswith('nan ')`: the printed form of a nan quantity; a unit whose name merely
+   starts with "nan" (nanometer) is an ordinary unit text.  The pinned tree tested startswith('nan'). *)
 Definition parse_units (body : string) : dval :=
-  match strip_prefix "nan" body with
+  if String.eqb body "nan" then DNanUnits "" else
+  match strip_prefix "nan " body with
   | Some rest => DNanUnits (lstrip rest)       (* .strip(): trailing blanks are ignored by pint anyway *)
+  | None => DUnits body
+  end.
+Definition parse_units_pinned (body : string) : dval :=
+  match strip_prefix "nan" body with
+  | Some rest => DNanUnits (lstrip rest)
   | None => DUnits body
   end.
 
